@@ -357,6 +357,24 @@ func scenarios() []hx.Scenario {
 		add([][]op{{S1, Sb, R, Gb, G}, other}, 0, false)
 		add([][]op{{Sb, S1, R, G, Gb}, other, {Z5, G}}, 0, true)
 	}
+	// a sweep over an expired key next to a caller that sets it again and then
+	// deletes it: what was deleted stays deleted, what was set last is served
+	for _, w := range [][]op{{S1, Z15, S2, D, G}, {S1, Z15, S2, G, D, G}, {S1, Z15, D, S2, G}, {S1, Sb, Z15, S2, D, Gb, G}} {
+		for _, cl := range [][]op{{Z15, C}, {Z15, C, G}, {Z15, R}} {
+			add([][]op{w, cl}, 0, false)
+		}
+	}
+	// the same with the sweep and the caller alternating step by step: four
+	// deviations required, a fifth as far as the budget allows (thorough tier:
+	// at five the search has tens of millions of schedules)
+	{
+		sc := [][]op{{S1, Z15, S2, D, G}, {Z15, C}}
+		out = append(out, hx.Scenario{
+			Name: "deep max=0 " + name(sc), Class: "ttlcache", Shards: 16, ThoroughOnly: true,
+			Opts: mc.Options{Delay: true, MinBound: 4, Bound: 5, AutoClock: true, Horizon: 4 * sec, MaxSteps: 5000},
+			Mk:   func() *mc.Exec { return mkExec(sc, 0, 1500*time.Millisecond) },
+		})
+	}
 	for _, w := range writer {
 		for _, r := range reader {
 			for ti, t := range third {
